@@ -24,6 +24,9 @@ type c01Member struct {
 	Style  cfg.Style    `json:"style"`
 	Stub   bool         `json:"stub"`
 	Labels []string     `json:"labels,omitempty"`
+	// the existence rules switched off: dangling references are then resolved (or not) at run time, the code must still compile
+	IgnoreP bool `json:"ignore_missing_params,omitempty"`
+	IgnoreS bool `json:"ignore_missing_services,omitempty"`
 }
 
 type c01Case struct {
@@ -68,7 +71,7 @@ func memberSpec(m c01Member) (Spec, cfg.Config, error) {
 		// (m00, c01, x02, a03, ...), so "order of the patterns" and "lexical order of the paths" disagree
 		s.Files = append(s.Files, File{Name: fmt.Sprintf("%c%02d.yaml", "mcxatb"[i%6], i), Content: text})
 	}
-	s.Flags = sut.Flags{Stub: m.Stub}
+	s.Flags = sut.Flags{Stub: m.Stub, IgnoreMissingParams: m.IgnoreP, IgnoreMissingServices: m.IgnoreS}
 	return s, ref.Merge(m.Files...), nil
 }
 
@@ -423,6 +426,28 @@ func TestC01(t *testing.T) {
 				members = append(members, c01Member{Files: []cfg.Config{c}, Stub: v&2 != 0, Labels: []string{"derived-name-collision-candidate", "getter-pair:" + g + "+" + other, fmt.Sprintf("stub:%v", v&2 != 0)}})
 			}
 		}
+	}
+	// (d) configurations that are accepted only because an existence rule is switched off: no parameter declared at all /
+	// exactly one / references in every position
+	for v := 0; v < 8; v++ {
+		idx++
+		if !ev.Mine(idx) {
+			continue
+		}
+		c := cfg.Config{Meta: cfg.Meta{Pkg: sp("app")}, Services: []cfg.Service{
+			{Name: "a", Ctor: sp("fx/lib.NewObj"), Args: []cfg.Val{cfg.Str("%gone%"), cfg.Str("x%gone2%y%%")}, Fields: []cfg.Field{{Name: "FieldA", Val: cfg.Str("%gone%")}},
+				Calls: []cfg.Call{{Method: "Call1", Args: []cfg.Val{cfg.Str("%gone3%")}}}, Tags: []cfg.Tag{{Name: "t"}}, Getter: sp("GetA"), Type: sp("*fx/lib.Obj")},
+			{Name: "b", Ctor: sp("fx/lib.NewObj"), Args: []cfg.Val{cfg.Str("@nosvc")}, Fields: []cfg.Field{{Name: "FieldA", Val: cfg.Str("@nosvc2")}}},
+		}, Decorators: []cfg.Decorator{{Tag: "t", Fn: "fx/lib.Decorate", Args: []cfg.Val{cfg.Str("%gone4%"), cfg.Str("@nosvc")}}}}
+		if v&1 != 0 {
+			c.Params = []cfg.Param{{Name: "only", Val: cfg.Str("%gone%")}}
+		}
+		if v&2 != 0 {
+			c.Services = c.Services[:1] // parameters dangle only
+			c.Decorators[0].Args = c.Decorators[0].Args[:1]
+		}
+		members = append(members, c01Member{Files: []cfg.Config{c}, Stub: v&4 != 0, IgnoreP: true, IgnoreS: true,
+			Labels: []string{"accepted-under-ignore-flags", fmt.Sprintf("declared-params:%d", len(c.Params)), fmt.Sprintf("stub:%v", v&4 != 0)}})
 	}
 	for len(members) > 0 {
 		n := 32
